@@ -270,14 +270,16 @@ func lpVal(p lorawan.LinkADRReqPayload) M {
 	return M{"cntl": int(p.Redundancy.ChMaskCntl), "mask": bits, "dr": int(p.DataRate), "txp": int(p.TXPower), "nbrep": int(p.Redundancy.NbRep)}
 }
 
-func planEvent(b band.Band, dev []int) (M, error) {
+// planEvent: nStd = number of channels the band had when it was created; every channel beyond was ADDED by this driver and
+// is therefore a custom channel whatever the band says about it now (the planner must not treat it as a standard channel)
+func planEvent(b band.Band, dev []int, nStd int) (M, error) {
 	s, ok := band.VerifSnapshot(b)
 	if !ok {
 		return nil, fmt.Errorf("no snapshot")
 	}
 	ul := []interface{}{}
-	for _, ch := range s.UplinkChannels {
-		ul = append(ul, M{"en": ch.Enabled, "cu": ch.Custom})
+	for i, ch := range s.UplinkChannels {
+		ul = append(ul, M{"en": ch.Enabled, "cu": i >= nStd})
 	}
 	ev := M{"ev": "plan", "bname": b.Name(), "chans": ul, "dev": intsOrEmpty(dev)}
 	var pls []lorawan.LinkADRReqPayload
@@ -408,6 +410,7 @@ func (c *ctx) planCase(name band.Name, nsets int, exhaustive bool) error {
 	if err != nil {
 		return err
 	}
+	nStd := len(chans)
 	maxChans := 16
 	if exhaustive {
 		maxChans = planExhMax
@@ -471,7 +474,7 @@ func (c *ctx) planCase(name band.Name, nsets int, exhaustive bool) error {
 					dev = append(dev, i)
 				}
 			}
-			ev, err := planEvent(b, dev)
+			ev, err := planEvent(b, dev, nStd)
 			if err != nil {
 				return err
 			}
@@ -480,7 +483,7 @@ func (c *ctx) planCase(name band.Name, nsets int, exhaustive bool) error {
 		return nil
 	}
 	for k := 0; k < nsets; k++ {
-		ev, err := planEvent(b, c.devSet(n, enabled, proj0["extra"].(bool)))
+		ev, err := planEvent(b, c.devSet(n, enabled, proj0["extra"].(bool)), nStd)
 		if err != nil {
 			return err
 		}
@@ -522,6 +525,23 @@ func xlayerEvents(c *ctx, name band.Name) error {
 			continue
 		}
 		emit("downlink-channel", "DLChannelReq", key("down", 10), M{"ChIndex": i % 256, "Freq": freqVal(ch.Channel.Frequency)})
+	}
+	// channels a network adds at frequencies outside the band's own range (any multiple of 100 Hz the 24-bit field carries):
+	// the band hands them out like every other channel and DLChannelReq must carry them unchanged
+	if s.SupportsExtraChannels {
+		for k := 0; k < 4; k++ {
+			f := uint32(c.pick(137000000, 433175000, 1200000000, 1300000000, 1500000100, 1677721500, 100+100*c.rnd.Intn(16777215)))
+			if err := b.AddChannel(f, 0, 5); err != nil {
+				continue
+			}
+			idx := b.GetUplinkChannelIndices()
+			i := idx[len(idx)-1]
+			ch, err := b.GetDownlinkChannel(i)
+			if err != nil {
+				continue
+			}
+			emit("added-channel", "DLChannelReq", key("down", 10), M{"ChIndex": i % 256, "Freq": freqVal(ch.Frequency)})
+		}
 	}
 	return nil
 }
